@@ -114,3 +114,14 @@ Definition s_member (st : sstate) (j : nat) (c : cls) : init_member :=
   | None => match lookup j (s_init st) with Some m => m | None => Absent end
   end.
 Definition s_labelled (st : sstate) (j : nat) (c : cls) : bool := decorated c || memb j (s_label st).
+
+(* ---- loads in any order: the MRO of a class is whatever can be computed WHEN it is asked for ----
+   Each event comes with the table as it stands at that moment: the same classes (decorator, body, hand-written __init__),
+   MRO lists over the packages loaded so far - for every class, not only for the classes walked by the event
+   (_dataclass_fields asks the parents for their MRO at the time of the child's event). *)
+Definition session_tv (m : mode) (paths : list nat) (evs : list (table * list nat)) : sstate :=
+  fold_left (fun st (te : table * list nat) => event m false false (fst te) paths st (snd te)) evs st0.
+
+(* Class.parameters read AFTER all the loads: the members are those the events left, the lookup follows the MRO of now *)
+Definition s_member_at (st : sstate) (tfin : table) (k : nat) : init_member :=
+  match nth_error tfin k with Some b => s_member st k b | None => Absent end.
